@@ -166,4 +166,17 @@ CLAIMED['C03'] = dict(
          '"wakes exactly one thread that was waiting at that moment" across vCPUs, timeouts racing with notifications.',
     technique='deductive verification: Hoare loop rule + stubs with stated contracts, CBMC on mechanically lowered real code',
     design='§6 C03')
+CLAIMED['C10'] = dict(
+    text='Kernel only: doio_once (EINTR/EAGAIN retry loop), doio_loop with BufStep (do-while loop, Hoare loop rule with a termination '
+         'variant), EventEngineEPoll::add_interest and rm_interest are lowered from /repo on every run.  Proved for all byte counts / I/O '
+         'results: doio_once returns the result of the last I/O attempt, always retries EINTR and gives up on EAGAIN only when the wait '
+         'reported timeout/interrupt; read/write (doio_loop+BufStep) continue each transfer exactly where the previous one stopped, return '
+         '-1 on error, otherwise exactly the bytes transferred, the full count unless EOF was seen, never ask for 0 bytes after the first '
+         'transfer, and terminate; add_interest/rm_interest keep the registered set equal to the union / difference, never change the other '
+         'direction\'s waiter, refuse to take over a direction registered for other data, arm exactly the union in the kernel, and change '
+         'nothing when refused or failed.',
+    note=TRUST + ' NOT decided: exactly-once ordered bytes end to end (kernel sockets), engine/scheduler interplay (a readiness event or timeout '
+         'of one waiter never wakes or starves another), BufStepV, wait_for_events / wait_for_fd, epoll-ng, timing of timeouts.',
+    technique='deductive verification: Hoare loop rule + loop-free full-domain CBMC harnesses on mechanically lowered real code, system calls as stubs',
+    design='§6 C10')
 NA = {}
